@@ -474,4 +474,443 @@ theorem split_vmc {T : List Tri} (hI : Inv T) (hv : AllVMC T) {a b e : Nat} (hf 
     rw [dT', dT, isRot_mk, isRot_mk, isRot_mk, isRot_mk, isRot_mk, isRot_mk]
     simp [hva, hvb, hvc, hvd, hve]
 
+/-! ## 6. edge swap -/
+
+/-- **an edge swap keeps every node vertex-manifold** -/
+theorem swap_vmc {T : List Tri} (hI : Inv T) (hv : AllVMC T) {a b : Nat} (hg : SwapGuard T a b) :
+    AllVMC (swapT T a b) := by
+  rcases find_cases T a b with hnone | ⟨t1, t2, h1, h2⟩
+  · rw [swap_noop hnone]; exact hv
+  obtain ⟨hab, hca, hcb, hda, hdb⟩ := quad_ne hI.nondeg h1 h2
+  have hcd := (hg t1 t2 h1 h2).1
+  have dT := lk_decomp hI.nondeg h1 h2
+  have dT' : ∀ v x y, Lk (swapT T a b) v x y ↔
+      (IsRot (a, opp t2 b a, opp t1 a b) v x y ∨ IsRot (b, opp t1 a b, opp t2 b a) v x y ∨
+        Lk ((T.erase t1).erase t2) v x y) := by
+    intro v x y
+    rw [swapT_eq h1 h2, lk_cons, lk_cons]
+  have nb : ∀ {v x y : Nat}, Lk ((T.erase t1).erase t2) v x y → _ := fun h => lk_rest_not_both hI h1 h2 h
+  generalize opp t1 a b = c at *
+  generalize opp t2 b a = d at *
+  intro v
+  by_cases hva : v = a
+  · -- the node `a`: the neighbour `b` is smoothed away
+    subst hva
+    have hT : ∀ x y, Lk T v x y ↔ ((x = b ∧ y = c) ∨ (x = d ∧ y = b) ∨ Lk ((T.erase t1).erase t2) v x y) := by
+      intro x y; rw [dT, isRot_mk, isRot_mk]; simp [hab, hab.symm, hca, hca.symm, hcb, hcb.symm, hda, hda.symm, hdb, hdb.symm, hcd, hcd.symm]
+    have hT' : ∀ x y, Lk (swapT T v b) v x y ↔ ((x = d ∧ y = c) ∨ Lk ((T.erase t1).erase t2) v x y) := by
+      intro x y; rw [dT', isRot_mk, isRot_mk]; simp [hab, hab.symm, hca, hca.symm, hcb, hcb.symm, hda, hda.symm, hdb, hdb.symm, hcd, hcd.symm]
+    have e1 : Lk T v d b := (hT _ _).2 (Or.inr (Or.inl ⟨rfl, rfl⟩))
+    have e2 : Lk T v b c := (hT _ _).2 (Or.inl ⟨rfl, rfl⟩)
+    refine conn_smooth (p := d) (q := c) (m := b) ?_ e1 e2 (fun u hu => lk_in_unique hI hu e1)
+      (fun w hw => lk_out_unique hI hw e2) hdb hcb (hv v)
+    intro x y
+    rw [hT', hT]
+    constructor
+    · rintro (h | h)
+      · exact Or.inr h
+      · have := nb h
+        exact Or.inl ⟨Or.inr (Or.inr h), fun hh => this.1 ⟨rfl, hh⟩, fun hh => this.2.1 ⟨rfl, hh⟩⟩
+    · rintro (⟨h | h | h, hx, hy⟩ | h)
+      · exact absurd h.1 hx
+      · exact absurd h.2 hy
+      · exact Or.inr h
+      · exact Or.inl h
+  by_cases hvb : v = b
+  · -- the node `b`: the neighbour `a` is smoothed away
+    subst hvb
+    have hT : ∀ x y, Lk T v x y ↔ ((x = c ∧ y = a) ∨ (x = a ∧ y = d) ∨ Lk ((T.erase t1).erase t2) v x y) := by
+      intro x y; rw [dT, isRot_mk, isRot_mk]; simp [hab, hab.symm, hca, hca.symm, hcb, hcb.symm, hda, hda.symm, hdb, hdb.symm, hcd, hcd.symm]
+    have hT' : ∀ x y, Lk (swapT T a v) v x y ↔ ((x = c ∧ y = d) ∨ Lk ((T.erase t1).erase t2) v x y) := by
+      intro x y; rw [dT', isRot_mk, isRot_mk]; simp [hab, hab.symm, hca, hca.symm, hcb, hcb.symm, hda, hda.symm, hdb, hdb.symm, hcd, hcd.symm]
+    have e1 : Lk T v c a := (hT _ _).2 (Or.inl ⟨rfl, rfl⟩)
+    have e2 : Lk T v a d := (hT _ _).2 (Or.inr (Or.inl ⟨rfl, rfl⟩))
+    refine conn_smooth (p := c) (q := d) (m := a) ?_ e1 e2 (fun u hu => lk_in_unique hI hu e1)
+      (fun w hw => lk_out_unique hI hw e2) hca hda (hv v)
+    intro x y
+    rw [hT', hT]
+    constructor
+    · rintro (h | h)
+      · exact Or.inr h
+      · have := nb h
+        exact Or.inl ⟨Or.inr (Or.inr h), fun hh => this.2.2.1 ⟨rfl, hh⟩, fun hh => this.2.2.2.1 ⟨rfl, hh⟩⟩
+    · rintro (⟨h | h | h, hx, hy⟩ | h)
+      · exact absurd h.2 hy
+      · exact absurd h.1 hx
+      · exact Or.inr h
+      · exact Or.inl h
+  by_cases hvc : v = c
+  · -- the node `c`: the link edge `a → b` is subdivided by `d`
+    subst hvc
+    have hT : ∀ x y, Lk T v x y ↔ ((x = a ∧ y = b) ∨ Lk ((T.erase t1).erase t2) v x y) := by
+      intro x y; rw [dT, isRot_mk, isRot_mk]; simp [hab, hab.symm, hca, hca.symm, hcb, hcb.symm, hda, hda.symm, hdb, hdb.symm, hcd, hcd.symm]
+    have hT' : ∀ x y, Lk (swapT T a b) v x y ↔
+        ((x = a ∧ y = d) ∨ (x = d ∧ y = b) ∨ Lk ((T.erase t1).erase t2) v x y) := by
+      intro x y; rw [dT', isRot_mk, isRot_mk]; simp [hab, hab.symm, hca, hca.symm, hcb, hcb.symm, hda, hda.symm, hdb, hdb.symm, hcd, hcd.symm]
+    have hab' : Lk T v a b := (hT _ _).2 (Or.inl ⟨rfl, rfl⟩)
+    refine conn_subdiv (p := a) (q := b) (m := d) ?_ hab' (lk_out_total hI hab') (hv v)
+    intro x y
+    rw [hT', hT]
+    constructor
+    · rintro (h | h | h)
+      · exact Or.inr (Or.inl h)
+      · exact Or.inr (Or.inr h)
+      · exact Or.inl ⟨Or.inr h, (nb h).2.2.2.2.1⟩
+    · rintro (⟨h | h, hn⟩ | h | h)
+      · exact absurd h hn
+      · exact Or.inr (Or.inr h)
+      · exact Or.inl h
+      · exact Or.inr (Or.inl h)
+  by_cases hvd : v = d
+  · -- the node `d`: the link edge `b → a` is subdivided by `c`
+    subst hvd
+    have hT : ∀ x y, Lk T v x y ↔ ((x = b ∧ y = a) ∨ Lk ((T.erase t1).erase t2) v x y) := by
+      intro x y; rw [dT, isRot_mk, isRot_mk]; simp [hab, hab.symm, hca, hca.symm, hcb, hcb.symm, hda, hda.symm, hdb, hdb.symm, hcd, hcd.symm]
+    have hT' : ∀ x y, Lk (swapT T a b) v x y ↔
+        ((x = c ∧ y = a) ∨ (x = b ∧ y = c) ∨ Lk ((T.erase t1).erase t2) v x y) := by
+      intro x y; rw [dT', isRot_mk, isRot_mk]; simp [hab, hab.symm, hca, hca.symm, hcb, hcb.symm, hda, hda.symm, hdb, hdb.symm, hcd, hcd.symm]
+    have hba' : Lk T v b a := (hT _ _).2 (Or.inl ⟨rfl, rfl⟩)
+    refine conn_subdiv (p := b) (q := a) (m := c) ?_ hba' (lk_out_total hI hba') (hv v)
+    intro x y
+    rw [hT', hT]
+    constructor
+    · rintro (h | h | h)
+      · exact Or.inr (Or.inr h)
+      · exact Or.inr (Or.inl h)
+      · exact Or.inl ⟨Or.inr h, (nb h).2.2.2.2.2⟩
+    · rintro (⟨h | h, hn⟩ | h | h)
+      · exact absurd h hn
+      · exact Or.inr (Or.inr h)
+      · exact Or.inr (Or.inl h)
+      · exact Or.inl h
+  · refine conn_congr ?_ (hv v)
+    intro x y
+    rw [dT', dT, isRot_mk, isRot_mk, isRot_mk, isRot_mk]
+    simp [hva, hvb, hvc, hvd]
+
+/-! ## 7. edge collapse -/
+
+/-- homomorphic image after removing one edge whose end points are identified -/
+theorem conn_image_contract {r r' : Nat → Nat → Prop} (ρ : Nat → Nat) {p q : Nat} (hρ : ρ p = ρ q)
+    (h : ∀ x y, r' x y ↔ ∃ x0 y0, r x0 y0 ∧ ¬ (x0 = p ∧ y0 = q) ∧ x = ρ x0 ∧ y = ρ y0) (hc : Conn r) :
+    Conn r' := by
+  refine conn_sim ρ hc ?_ ?_
+  · intro x y hxy
+    by_cases he : x = p ∧ y = q
+    · obtain ⟨rfl, rfl⟩ := he
+      rw [hρ]
+    · exact ReflTransGen.single ((h _ _).2 ⟨x, y, hxy, he, rfl, rfl⟩)
+  · intro x x' hx
+    obtain ⟨x0, y0, h0, _, rfl, _⟩ := (h _ _).1 hx
+    exact ⟨x0, y0, h0, ReflTransGen.refl, ReflTransGen.refl⟩
+
+/-- **glueing two cycles along a common edge**: `rA` is a connected relation in which `b` has the only edges
+    `d → b → c`, `rB` a connected relation in which `a` has the only edges `c → a → d`; removing `b` from the first and
+    `a` from the second and taking the union gives a connected relation -/
+theorem conn_glue {rA rB r' : Nat → Nat → Prop} {a b c d : Nat} (hcA : Conn rA) (hcB : Conn rB)
+    (A1 : rA d b) (A2 : rA b c) (inA : ∀ u, rA u b → u = d) (outA : ∀ w, rA b w → w = c)
+    (B1 : rB c a) (B2 : rB a d) (inB : ∀ u, rB u a → u = c) (outB : ∀ w, rB a w → w = d)
+    (hdb : d ≠ b) (hcb : c ≠ b) (hca : c ≠ a) (hda : d ≠ a)
+    (hcout : ∃ z, rA c z) (hdout : ∃ z, rB d z)
+    (h : ∀ x y, r' x y ↔ ((rA x y ∧ x ≠ b ∧ y ≠ b) ∨ (rB x y ∧ x ≠ a ∧ y ≠ a))) : Conn r' := by
+  obtain ⟨zc, hzc⟩ := hcout
+  obtain ⟨zd, hzd⟩ := hdout
+  -- the two paths that replace the removed nodes
+  have P1 : ReflTransGen r' c d := by
+    have := rtg_avoid (hcA c d zc b hzc A1) hcb inA
+    exact this.lift id (fun u w huw => (h u w).2 (Or.inl huw))
+  have P2 : ReflTransGen r' d c := by
+    have := rtg_avoid (hcB d c zd a hzd B1) hda inB
+    exact this.lift id (fun u w huw => (h u w).2 (Or.inr huw))
+  have simA : ∀ x y, rA x y → ReflTransGen r' (if x = b then d else x) (if y = b then d else y) := by
+    intro x y hxy
+    by_cases hx : x = b
+    · subst hx
+      have := outA y hxy
+      subst this
+      simp only [if_true, if_neg hcb]; exact P2
+    · by_cases hy : y = b
+      · subst hy
+        have := inA x hxy
+        subst this
+        simp only [if_true, if_neg hdb]; exact ReflTransGen.refl
+      · simp only [if_neg hx, if_neg hy]
+        exact ReflTransGen.single ((h _ _).2 (Or.inl ⟨hxy, hx, hy⟩))
+  have simB : ∀ x y, rB x y → ReflTransGen r' (if x = a then c else x) (if y = a then c else y) := by
+    intro x y hxy
+    by_cases hx : x = a
+    · subst hx
+      have := outB y hxy
+      subst this
+      simp only [if_true, if_neg hda]; exact P1
+    · by_cases hy : y = a
+      · subst hy
+        have := inB x hxy
+        subst this
+        simp only [if_true, if_neg hca]; exact ReflTransGen.refl
+      · simp only [if_neg hx, if_neg hy]
+        exact ReflTransGen.single ((h _ _).2 (Or.inr ⟨hxy, hx, hy⟩))
+  have liftA : ∀ {x y x' y' : Nat}, rA x x' → rA y y' → x ≠ b → y ≠ b → ReflTransGen r' x y := by
+    intro x y x' y' hx hy nx ny
+    have := (hcA x y x' y' hx hy).lift' _ simA
+    unfold Function.onFun at this
+    simp only [if_neg nx, if_neg ny] at this
+    exact this
+  have liftB : ∀ {x y x' y' : Nat}, rB x x' → rB y y' → x ≠ a → y ≠ a → ReflTransGen r' x y := by
+    intro x y x' y' hx hy nx ny
+    have := (hcB x y x' y' hx hy).lift' _ simB
+    unfold Function.onFun at this
+    simp only [if_neg nx, if_neg ny] at this
+    exact this
+  intro x y x' y' hx hy
+  rcases (h _ _).1 hx with ⟨hx1, nx, _⟩ | ⟨hx1, nx, _⟩ <;> rcases (h _ _).1 hy with ⟨hy1, ny, _⟩ | ⟨hy1, ny, _⟩
+  · exact liftA hx1 hy1 nx ny
+  · exact (liftA hx1 hzc nx hcb).trans (liftB B1 hy1 hca ny)
+  · exact (liftB hx1 hzd nx hda).trans (liftA A1 hy1 hdb ny)
+  · exact liftB hx1 hy1 nx ny
+
+theorem isRot_map (ρ : Nat → Nat) (t : Tri) (v x y : Nat) :
+    IsRot (ρ t.1, ρ t.2.1, ρ t.2.2) v x y ↔ ∃ v0 x0 y0, IsRot t v0 x0 y0 ∧ v = ρ v0 ∧ x = ρ x0 ∧ y = ρ y0 := by
+  obtain ⟨p, q, r⟩ := t
+  constructor
+  · intro h
+    rw [isRot_mk] at h
+    rcases h with ⟨rfl, rfl, rfl⟩ | ⟨rfl, rfl, rfl⟩ | ⟨rfl, rfl, rfl⟩
+    · exact ⟨p, q, r, Or.inl rfl, rfl, rfl, rfl⟩
+    · exact ⟨q, r, p, Or.inr (Or.inr rfl), rfl, rfl, rfl⟩
+    · exact ⟨r, p, q, Or.inr (Or.inl rfl), rfl, rfl, rfl⟩
+  · rintro ⟨v0, x0, y0, h, rfl, rfl, rfl⟩
+    rw [isRot_mk] at h ⊢
+    rcases h with ⟨rfl, rfl, rfl⟩ | ⟨rfl, rfl, rfl⟩ | ⟨rfl, rfl, rfl⟩
+    · exact Or.inl ⟨rfl, rfl, rfl⟩
+    · exact Or.inr (Or.inl ⟨rfl, rfl, rfl⟩)
+    · exact Or.inr (Or.inr ⟨rfl, rfl, rfl⟩)
+
+/-- the triangles that survive a collapse are the renamed triangles of the rest -/
+theorem lk_collapse {T : List Tri} (hI : Inv T) {a b i : Nat} {t1 t2 : Tri}
+    (h1 : findDir T a b = some t1) (h2 : findDir T b a = some t2) (v x y : Nat) :
+    Lk (collapseT T a b i) v x y ↔ ∃ v0 x0 y0, Lk ((T.erase t1).erase t2) v0 x0 y0 ∧
+      v = ren a b i v0 ∧ x = ren a b i x0 ∧ y = ren a b i y0 := by
+  obtain ⟨_, hp, d1, d2⟩ := find_decomp hI.nondeg h1 h2
+  have hmem : ∀ t, (t ∈ T ∧ (!(hasNode t a && hasNode t b)) = true) ↔ t ∈ (T.erase t1).erase t2 := by
+    intro t
+    constructor
+    · rintro ⟨ht, hp'⟩
+      have : t ∈ t1 :: t2 :: (T.erase t1).erase t2 := hp.mem_iff.1 ht
+      rcases List.mem_cons.1 this with rfl | this
+      · obtain ⟨n1, n2, _⟩ := isRot_hasNode ((isRot_of_hasDir d1 a b _).2 (Or.inl rfl))
+        simp [n1, n2] at hp'
+      rcases List.mem_cons.1 this with rfl | this
+      · obtain ⟨n1, n2, _⟩ := isRot_hasNode ((isRot_of_hasDir d2 b a _).2 (Or.inl rfl))
+        simp [n1, n2] at hp'
+      · exact this
+    · intro ht
+      refine ⟨mem_of_mem_rest ht, ?_⟩
+      have := rest_not_both hI h1 h2 ht
+      cases ha : hasNode t a <;> cases hb : hasNode t b <;> simp_all
+  unfold collapseT Lk
+  constructor
+  · rintro ⟨t', ht', hr⟩
+    obtain ⟨t, ht, rfl⟩ := List.mem_map.1 ht'
+    rw [List.mem_filter] at ht
+    obtain ⟨v0, x0, y0, h0, e1, e2, e3⟩ := (isRot_map (ren a b i) t v x y).1 hr
+    exact ⟨v0, x0, y0, ⟨t, (hmem t).1 ht, h0⟩, e1, e2, e3⟩
+  · rintro ⟨v0, x0, y0, ⟨t, ht, h0⟩, e1, e2, e3⟩
+    refine ⟨_, List.mem_map.2 ⟨t, List.mem_filter.2 ((hmem t).2 ht), rfl⟩, ?_⟩
+    exact (isRot_map (ren a b i) t v x y).2 ⟨v0, x0, y0, h0, e1, e2, e3⟩
+
+theorem ren_eq {a b i x v : Nat} (h : v = ren a b i x) (hvi : v ≠ i) : x = v ∧ x ≠ a ∧ x ≠ b := by
+  unfold ren at h
+  simp only [Bool.or_eq_true, beq_iff_eq] at h
+  split at h
+  · exact absurd h hvi
+  · refine ⟨h.symm, ?_, ?_⟩ <;> intro hh <;> simp_all
+
+theorem ren_of_ne {a b i x : Nat} (ha : x ≠ a) (hb : x ≠ b) : ren a b i x = x := by
+  unfold ren; simp [ha, hb]
+
+theorem ren_eq_i {a b i x : Nat} (h : i = ren a b i x) : x = a ∨ x = b ∨ x = i := by
+  unfold ren at h
+  simp only [Bool.or_eq_true, beq_iff_eq] at h
+  split at h
+  · rename_i hh; rcases hh with hh | hh
+    · exact Or.inl hh
+    · exact Or.inr (Or.inl hh)
+  · exact Or.inr (Or.inr h.symm)
+
+theorem lk_ne {T : List Tri} (hn : NonDeg T) {v x y : Nat} (h : Lk T v x y) : v ≠ x ∧ x ≠ y ∧ y ≠ v := by
+  obtain ⟨t, ht, hr⟩ := h
+  have := hn t ht
+  obtain ⟨p, q, r⟩ := t
+  rw [isRot_mk] at hr
+  dsimp only at this
+  omega
+
+theorem lk_rest_sub {T : List Tri} {t1 t2 : Tri} {v x y : Nat} (h : Lk ((T.erase t1).erase t2) v x y) :
+    Lk T v x y := by
+  obtain ⟨t, ht, hr⟩ := h
+  exact ⟨t, mem_of_mem_rest ht, hr⟩
+
+/-- **an edge collapse keeps every node vertex-manifold** (the link of the new node is glued from the links of the two
+    end nodes; at the two opposite nodes the link edge `a → b` is contracted; elsewhere the two end nodes are renamed) -/
+theorem collapse_vmc {T : List Tri} (hI : Inv T) (hv : AllVMC T) {a b i : Nat} {t1 t2 : Tri}
+    (h1 : findDir T a b = some t1) (h2 : findDir T b a = some t2) (hcd : opp t1 a b ≠ opp t2 b a)
+    (hi : Fresh T i) : AllVMC (collapseT T a b i) := by
+  obtain ⟨hab, hca, hcb, hda, hdb⟩ := quad_ne hI.nondeg h1 h2
+  obtain ⟨hia, hib, hic, hid⟩ := fresh_ne hI.nondeg h1 h2 hi
+  have dT := lk_decomp hI.nondeg h1 h2
+  have dC := lk_collapse hI h1 h2 (i := i)
+  have nb : ∀ {v x y : Nat}, Lk ((T.erase t1).erase t2) v x y → _ := fun h => lk_rest_not_both hI h1 h2 h
+  have fr : ∀ {v x y : Nat}, Lk ((T.erase t1).erase t2) v x y → _ := fun h => lk_rest_fresh (t1 := t1) (t2 := t2) hi h
+  have ne3 : ∀ {v x y : Nat}, Lk ((T.erase t1).erase t2) v x y → _ := fun h => lk_ne hI.nondeg (lk_rest_sub h)
+  generalize opp t1 a b = c at *
+  generalize opp t2 b a = d at *
+  have ra : ren a b i a = i := ce_ren_left a b i
+  have rb : ren a b i b = i := ce_ren_right a b i
+  intro v
+  by_cases hvi : v = i
+  · -- the new node: the links of `a` and `b` glued along the edge
+    subst hvi
+    have hTa : ∀ x y, Lk T a x y ↔ ((x = b ∧ y = c) ∨ (x = d ∧ y = b) ∨ Lk ((T.erase t1).erase t2) a x y) := by
+      intro x y; rw [dT, isRot_mk, isRot_mk]; simp [hab, hab.symm, hca, hca.symm, hcb, hcb.symm, hda, hda.symm, hdb, hdb.symm]
+    have hTb : ∀ x y, Lk T b x y ↔ ((x = c ∧ y = a) ∨ (x = a ∧ y = d) ∨ Lk ((T.erase t1).erase t2) b x y) := by
+      intro x y; rw [dT, isRot_mk, isRot_mk]; simp [hab, hab.symm, hca, hca.symm, hcb, hcb.symm, hda, hda.symm, hdb, hdb.symm]
+    have a1 : Lk T a d b := (hTa _ _).2 (Or.inr (Or.inl ⟨rfl, rfl⟩))
+    have a2 : Lk T a b c := (hTa _ _).2 (Or.inl ⟨rfl, rfl⟩)
+    have b1 : Lk T b c a := (hTb _ _).2 (Or.inl ⟨rfl, rfl⟩)
+    have b2 : Lk T b a d := (hTb _ _).2 (Or.inr (Or.inl ⟨rfl, rfl⟩))
+    refine conn_glue (rA := Lk T a) (rB := Lk T b) (a := a) (b := b) (c := c) (d := d) (hv a) (hv b) a1 a2
+      (fun u hu => lk_in_unique hI hu a1) (fun w hw => lk_out_unique hI hw a2) b1 b2
+      (fun u hu => lk_in_unique hI hu b1) (fun w hw => lk_out_unique hI hw b2) hdb hcb hca hda
+      (lk_out_total hI a2) (lk_out_total hI b2) ?_
+    intro x y
+    rw [dC]
+    constructor
+    · rintro ⟨v0, x0, y0, h0, e1, e2, e3⟩
+      have n3 := ne3 h0
+      have f3 := fr h0
+      have n := nb h0
+      rcases ren_eq_i e1 with rfl | rfl | rfl
+      · have hx : x0 ≠ b := fun hh => n.1 ⟨rfl, hh⟩
+        have hy : y0 ≠ b := fun hh => n.2.1 ⟨rfl, hh⟩
+        rw [ren_of_ne (Ne.symm n3.1) hx] at e2
+        rw [ren_of_ne n3.2.2 hy] at e3
+        subst e2; subst e3
+        exact Or.inl ⟨(hTa _ _).2 (Or.inr (Or.inr h0)), hx, hy⟩
+      · have hx : x0 ≠ a := fun hh => n.2.2.1 ⟨rfl, hh⟩
+        have hy : y0 ≠ a := fun hh => n.2.2.2.1 ⟨rfl, hh⟩
+        rw [ren_of_ne hx (Ne.symm n3.1)] at e2
+        rw [ren_of_ne hy n3.2.2] at e3
+        subst e2; subst e3
+        exact Or.inr ⟨(hTb _ _).2 (Or.inr (Or.inr h0)), hx, hy⟩
+      · exact absurd rfl f3.1
+    · rintro (⟨h, hx, hy⟩ | ⟨h, hx, hy⟩)
+      · rcases (hTa _ _).1 h with h' | h' | h'
+        · exact absurd h'.1 hx
+        · exact absurd h'.2 hy
+        · have n3 := ne3 h'
+          exact ⟨a, x, y, h', ra.symm, (ren_of_ne (Ne.symm n3.1) hx).symm, (ren_of_ne n3.2.2 hy).symm⟩
+      · rcases (hTb _ _).1 h with h' | h' | h'
+        · exact absurd h'.2 hy
+        · exact absurd h'.1 hx
+        · have n3 := ne3 h'
+          exact ⟨b, x, y, h', rb.symm, (ren_of_ne hx (Ne.symm n3.1)).symm, (ren_of_ne hy n3.2.2).symm⟩
+  -- from now on `v ≠ i`: the triangles around `v` are the renamed triangles of the rest around `v`
+  have dC' : ∀ x y, Lk (collapseT T a b i) v x y ↔
+      ∃ x0 y0, Lk ((T.erase t1).erase t2) v x0 y0 ∧ v ≠ a ∧ v ≠ b ∧ x = ren a b i x0 ∧ y = ren a b i y0 := by
+    intro x y
+    rw [dC]
+    constructor
+    · rintro ⟨v0, x0, y0, h0, e1, e2, e3⟩
+      obtain ⟨rfl, n1, n2⟩ := ren_eq e1 hvi
+      exact ⟨x0, y0, h0, n1, n2, e2, e3⟩
+    · rintro ⟨x0, y0, h0, n1, n2, e2, e3⟩
+      exact ⟨v, x0, y0, h0, (ren_of_ne n1 n2).symm, e2, e3⟩
+  by_cases hvab : v = a ∨ v = b
+  · -- the two end nodes have disappeared
+    intro x y x' y' hx _
+    obtain ⟨_, _, _, n1, n2, _⟩ := (dC' _ _).1 hx
+    rcases hvab with h | h
+    · exact absurd h n1
+    · exact absurd h n2
+  have hva : v ≠ a := fun h => hvab (Or.inl h)
+  have hvb : v ≠ b := fun h => hvab (Or.inr h)
+  by_cases hvc : v = c
+  · -- the opposite node `c`: the link edge `a → b` is contracted to `i`
+    subst hvc
+    have hT : ∀ x y, Lk T v x y ↔ ((x = a ∧ y = b) ∨ Lk ((T.erase t1).erase t2) v x y) := by
+      intro x y; rw [dT, isRot_mk, isRot_mk]
+      simp [hab, hab.symm, hca, hca.symm, hcb, hcb.symm, hda, hda.symm, hdb, hdb.symm, hcd, hcd.symm]
+    refine conn_image_contract (ren a b i) (p := a) (q := b) (ra.trans rb.symm) ?_ (hv v)
+    intro x y
+    rw [dC']
+    constructor
+    · rintro ⟨x0, y0, h0, _, _, e2, e3⟩
+      exact ⟨x0, y0, (hT _ _).2 (Or.inr h0), (nb h0).2.2.2.2.1, e2, e3⟩
+    · rintro ⟨x0, y0, h0, hn, e2, e3⟩
+      rcases (hT _ _).1 h0 with h' | h'
+      · exact absurd h' hn
+      · exact ⟨x0, y0, h', hva, hvb, e2, e3⟩
+  by_cases hvd : v = d
+  · -- the opposite node `d`: the link edge `b → a` is contracted to `i`
+    subst hvd
+    have hT : ∀ x y, Lk T v x y ↔ ((x = b ∧ y = a) ∨ Lk ((T.erase t1).erase t2) v x y) := by
+      intro x y; rw [dT, isRot_mk, isRot_mk]
+      simp [hab, hab.symm, hca, hca.symm, hcb, hcb.symm, hda, hda.symm, hdb, hdb.symm, hvc]
+    refine conn_image_contract (ren a b i) (p := b) (q := a) (rb.trans ra.symm) ?_ (hv v)
+    intro x y
+    rw [dC']
+    constructor
+    · rintro ⟨x0, y0, h0, _, _, e2, e3⟩
+      exact ⟨x0, y0, (hT _ _).2 (Or.inr h0), (nb h0).2.2.2.2.2, e2, e3⟩
+    · rintro ⟨x0, y0, h0, hn, e2, e3⟩
+      rcases (hT _ _).1 h0 with h' | h'
+      · exact absurd h' hn
+      · exact ⟨x0, y0, h', hva, hvb, e2, e3⟩
+  · -- any other node: the two end nodes are renamed in its link
+    have hT : ∀ x y, Lk T v x y ↔ Lk ((T.erase t1).erase t2) v x y := by
+      intro x y; rw [dT, isRot_mk, isRot_mk]; simp [hva, hvb, hvc, hvd]
+    refine conn_image (ren a b i) ?_ (hv v)
+    intro x y
+    rw [dC']
+    constructor
+    · rintro ⟨x0, y0, h0, _, _, e2, e3⟩
+      exact ⟨x0, y0, (hT _ _).2 h0, e2, e3⟩
+    · rintro ⟨x0, y0, h0, e2, e3⟩
+      exact ⟨x0, y0, (hT _ _).1 h0, hva, hvb, e2, e3⟩
+
+/-! ## 8. renaming of node ids, and histories -/
+
+theorem rename_vmc {T : List Tri} (ρ : Nat → Nat) (hρ : Set.InjOn ρ (vertsF T : Set Nat)) (hv : AllVMC T) :
+    AllVMC (renameT ρ T) := by
+  have key : ∀ v x y, Lk (renameT ρ T) v x y ↔ ∃ v0 x0 y0, Lk T v0 x0 y0 ∧ v = ρ v0 ∧ x = ρ x0 ∧ y = ρ y0 := by
+    intro v x y
+    unfold renameT Lk
+    constructor
+    · rintro ⟨t', ht', hr⟩
+      obtain ⟨t, ht, rfl⟩ := List.mem_map.1 ht'
+      obtain ⟨v0, x0, y0, h0, e1, e2, e3⟩ := (isRot_map ρ t v x y).1 hr
+      exact ⟨v0, x0, y0, ⟨t, ht, h0⟩, e1, e2, e3⟩
+    · rintro ⟨v0, x0, y0, ⟨t, ht, h0⟩, e1, e2, e3⟩
+      exact ⟨_, List.mem_map.2 ⟨t, ht, rfl⟩, (isRot_map ρ t v x y).2 ⟨v0, x0, y0, h0, e1, e2, e3⟩⟩
+  have hvert : ∀ {v x y : Nat}, Lk T v x y → v ∈ vertsF T := by
+    rintro v x y ⟨t, ht, hr⟩
+    exact ce_mem_vertsF.2 ⟨t, ht, (isRot_hasNode hr).1⟩
+  intro v
+  by_cases hex : ∃ v0 x0 y0, Lk T v0 x0 y0 ∧ v = ρ v0
+  · obtain ⟨v0, x0, y0, h0, rfl⟩ := hex
+    refine conn_image ρ ?_ (hv v0)
+    intro x y
+    rw [key]
+    constructor
+    · rintro ⟨v1, x1, y1, h1, e1, e2, e3⟩
+      have : v0 = v1 := hρ (by exact_mod_cast hvert h0) (by exact_mod_cast hvert h1) e1
+      subst this
+      exact ⟨x1, y1, h1, e2, e3⟩
+    · rintro ⟨x1, y1, h1, e2, e3⟩
+      exact ⟨v0, x1, y1, h1, rfl, e2, e3⟩
+  · intro x y x' y' hx _
+    obtain ⟨v0, x0, y0, h0, e1, _⟩ := (key _ _ _).1 hx
+    exact absurd ⟨v0, x0, y0, h0, e1⟩ hex
+
 end Simu.Surface
